@@ -92,3 +92,91 @@ def control_fns_ok(fns):
             return False
         seen.append(seq)
     return len(seen) == 6
+
+
+# ------------------------------------------------------------------------------------------ Q1-Q3: round trip and simplify (C03)
+def roundtrip(AnsiString, s):
+    """render, then parse the rendering back"""
+    return AnsiString(str(s))
+
+
+def post_rt_text(r):
+    return r.result._s == r.old_s._s
+
+
+def rt_k_range(r):
+    return (0, len(r.old_s._s))
+
+
+def post_rt_char_state(r):
+    """every character of the re-parsed value has the effective style it has in the source"""
+    return eff_state(view(r.result, r.k)) == eff_state(view(r.old_s, r.k))
+
+
+def post_rt_result_wf(r):
+    return wf_ok(r.result) and r.result is not r.s
+
+
+def valid_settings(lst):
+    out = []
+    for x in lst:
+        if valid_spec(str(x)):
+            out.append(x)
+    return out
+
+
+def post_simplify_text(r):
+    return r.self._s == r.old_self._s and r.result is None
+
+
+def simplify_k_range(r):
+    return (0, len(r.old_self._s))
+
+
+def post_simplify_char_state(r):
+    """simplify keeps the effective style of every character (of its valid settings: an invalid setting - one that
+    would end the escape sequence - has no defined style and is dropped)"""
+    return eff_state(view(r.self, r.k)) == eff_state(valid_settings(view(r.old_self, r.k)))
+
+
+def all_table_settings(v):
+    out = []
+    for key in v._fmts:
+        p = v._fmts[key]
+        for x in p.add:
+            out.append(x)
+        for x in p.rem:
+            out.append(x)
+    return out
+
+
+def post_simplify_all_parsable(r):
+    """afterwards every setting is valid and parsable (is_formatting_parsable() is True)"""
+    for x in all_table_settings(r.self):
+        if not parsable_spec(str(x)):
+            return False
+    return wf_ok(r.self) and r.self.is_formatting_parsable()
+
+
+def simplify_twice(s):
+    s.simplify()
+    a = str(s)
+    s.simplify()
+    b = str(s)
+    return (a, b)
+
+
+def post_simplify_idempotent(r):
+    """a second simplify() leaves the rendering unchanged"""
+    return r.result[0] == r.result[1]
+
+
+def render_parse_render(AnsiString, s):
+    s.simplify()
+    a = str(s)
+    return (a, str(AnsiString(a)))
+
+
+def post_simplified_is_fixed_point(r):
+    """a simplified value renders to a fixed point: str(AnsiString(str(s))) == str(s)"""
+    return r.result[0] == r.result[1]
